@@ -294,6 +294,18 @@ pub fn gen_invalid_raw(inst: &Inst, rng: &mut Rng) -> (Vec<N>, &'static str) {
             }
             _ => {}
         },
+        "multihot" if special && rng.chance(1, 3) && inst.weight >= 2 => {
+            // one bucket holds 2, the claimed weight is the honest encoding of 2
+            for x in raw.iter_mut() {
+                *x = N(0);
+            }
+            let a = rng.usize_below(len);
+            raw[a] = N(2);
+            for (x, e) in raw.iter_mut().skip(len).zip(enc_range_checked(2, inst.weight as u128)) {
+                *x = N(e);
+            }
+            return (raw, "multihot_bucket_two_consistent");
+        }
         "multihot" if special => {
             let wmax = inst.weight as usize;
             if wmax < len {
@@ -321,6 +333,48 @@ pub fn gen_invalid_raw(inst: &Inst, rng: &mut Rng) -> (Vec<N>, &'static str) {
                     *x = N(e);
                 }
                 return (raw, "multihot_wrong_claim");
+            }
+        }
+        "l1" if special && rng.chance(1, 2) => {
+            // exactly ONE non-bit digit while the norm equation still holds, so that only the range
+            // check of that digit's chunk can reject the report
+            let max = inst.max.0;
+            let bits = bits_of(max);
+            let threshold = (1u128 << (bits - 1)) - 1;
+            let w_top = max - threshold;
+            if len >= 2 && rng.chance(1, 2) && max.checked_add(w_top).map(|t| t < p).unwrap_or(false) {
+                // the TOP digit of the claimed norm is 2, all lower digits 1: claim = 2*w_top + threshold
+                // = max + w_top; elements: one holds max, another w_top
+                for x in raw.iter_mut() {
+                    *x = N(0);
+                }
+                let a = rng.usize_below(len);
+                let b = (a + 1 + rng.usize_below(len - 1)) % len;
+                for (k, e) in enc_range_checked(max, max).into_iter().enumerate() {
+                    raw[a * bits + k] = N(e);
+                }
+                for (k, e) in enc_range_checked(w_top, max).into_iter().enumerate() {
+                    raw[b * bits + k] = N(e);
+                }
+                for k in 0..bits - 1 {
+                    raw[len * bits + k] = N(1);
+                }
+                raw[len * bits + bits - 1] = N(2);
+                return (raw, "l1_claim_top_digit_two");
+            }
+            if bits >= 3 {
+                // one element digit is 2, the claim is the honest encoding of the resulting norm
+                for x in raw.iter_mut() {
+                    *x = N(0);
+                }
+                let e = rng.usize_below(len);
+                let j = rng.usize_below(bits - 2);
+                let s = 2u128 << j; // 2 * 2^j <= 2^(bits-2) <= threshold < max
+                raw[e * bits + j] = N(2);
+                for (k, d) in enc_range_checked(s, max).into_iter().enumerate() {
+                    raw[len * bits + k] = N(d);
+                }
+                return (raw, "l1_element_digit_two_consistent");
             }
         }
         "l1" if special => {
